@@ -147,6 +147,7 @@ fn run_case(rng: &mut Rng, mode: &str, release: bool) -> String {
     let seg_sizes: Vec<usize> = (0..600).map(|_| match rng.below(4) { 0 => rng.range(1, 6) as usize, 1 => 7, _ => rng.range(1, (mlen as usize).saturating_sub(9).max(1) as u64) as usize }).collect();
     let abort_code = *rng.pick(&[0x05030000u32, 0x06010000, 0x06020000, 0x06090011, 0x08000000, 0x12345678]);
     let mut adv_rng = Rng::new(rng.next());
+    let (em_code, em_reg) = (if rng.chance(1, 3) { 0x8130u16 } else { rng.edgy(16) as u16 }, rng.byte());
     let sticky: (u16, u8, bool, u32, usize, Vec<u8>) = (*rng.pick(&[3u16, 4, 9, 10, 10, 10, 11, 12]), *rng.pick(&[0u8, 1, 6, 7, 7, 7]), rng.chance(1, 8), if rng.chance(3, 4) { tn as u32 } else { *rng.pick(&[5u32, 40, 600, 70000]) }, rng.below(3) as usize, rng.bytes(12));
     let mut seg_pos = 0usize;
     let mut seg_i = 0usize;
@@ -205,7 +206,7 @@ fn run_case(rng: &mut Rng, mode: &str, release: bool) -> String {
             seg_pos = 0; seg_i = 0;
             match kind {
                 6 => reps.push(abort_reply(counter, ridx, rsub, abort_code)),
-                7 => reps.push(emergency_reply(counter, 0x8130, 0x11)),
+                7 => reps.push(emergency_reply(counter, em_code, em_reg)),
                 8 => reps.push(expedited_reply(counter, ridx.wrapping_add(1), rsub, &objc[..objc.len().min(4)])),
                 _ => {
                     let fits = objc.len() + 16 <= mlen as usize;
@@ -227,7 +228,7 @@ fn run_case(rng: &mut Rng, mode: &str, release: bool) -> String {
             reps.push(segment_reply(counter, toggle, last, &objc[seg_pos..seg_pos + take], if kind == 10 { 3 } else { 0 }));
             seg_pos += take;
         } else if service == 2 && (cmdbyte >> 5) == 1 {
-            match kind { 6 => reps.push(abort_reply(counter, ridx, rsub, abort_code)), 7 => reps.push(emergency_reply(counter, 0x8130, 0x11)), _ => reps.push(download_reply(counter, ridx, rsub)) }
+            match kind { 6 => reps.push(abort_reply(counter, ridx, rsub, abort_code)), 7 => reps.push(emergency_reply(counter, em_code, em_reg)), _ => reps.push(download_reply(counter, ridx, rsub)) }
         } else if service == 8 {
             // SDO info: object list in fragments of the mailbox size
             let list: Vec<u8> = objc.iter().copied().chain(std::iter::repeat(0)).take((objc.len() / 2) * 2).collect();
@@ -284,8 +285,8 @@ fn run_case(rng: &mut Rng, mode: &str, release: bool) -> String {
         Ok(_) => "\"res\":\"HANG\"".to_string(),
     };
     let dev_reads = dev.reads;
-    format!("{{\"kind\":\"coe\",\"status_polls\":{dev_reads},\"mode\":\"{}\",\"release\":{},\"mlen\":{},\"wmlen\":{},\"op\":{},\"skind\":{},\"idx\":{},\"sub\":{},\"obj\":\"{}\",\"tn\":{},\"upload_mode\":{},\"wlen\":{},\"wr_vals\":{:?},\"abort\":{},\"requests\":[{}],\"replies\":[{}],\"stale\":[{}],\"per_req\":[{}],\"pad\":{},{},\"out\":{:?},\"frames\":{}}}",
-        mode, release, mlen, wmlen, op, kind, idx, sub, hex(&obj), tn, upload_mode, wlen, wr_vals, abort_code,
+    format!("{{\"kind\":\"coe\",\"status_polls\":{dev_reads},\"mode\":\"{}\",\"release\":{},\"mlen\":{},\"wmlen\":{},\"op\":{},\"skind\":{},\"idx\":{},\"sub\":{},\"obj\":\"{}\",\"tn\":{},\"upload_mode\":{},\"wlen\":{},\"wr_vals\":{:?},\"abort\":{},\"em_code\":{},\"em_reg\":{},\"requests\":[{}],\"replies\":[{}],\"stale\":[{}],\"per_req\":[{}],\"pad\":{},{},\"out\":{:?},\"frames\":{}}}",
+        mode, release, mlen, wmlen, op, kind, idx, sub, hex(&obj), tn, upload_mode, wlen, wr_vals, abort_code, em_code, em_reg,
         dev.requests.iter().map(|r| format!("\"{}\"", hex(r))).collect::<Vec<_>>().join(","),
         dev.delivered.iter().map(|r| format!("\"{}\"", hex(r))).collect::<Vec<_>>().join(","),
         stale.iter().map(|r| format!("\"{}\"", hex(r))).collect::<Vec<_>>().join(","),
